@@ -49,6 +49,7 @@ structure Op where
 structure Opts where
   neg : Bool := true           -- SupportNegativeIndices
   allowMissing : Bool := false -- AllowMissingPathOnRemove
+  ensure : Bool := false       -- EnsurePathExistsOnAdd
   limit : Nat := 0             -- AccumulatedCopySizeLimit (0 = off)
   deriving Repr, Inhabited
 
@@ -215,6 +216,59 @@ def getIn (o : Opts) (absentNull : Bool) (parent : Value) (t : Bytes) : Res (Val
     | .unspec => .unspec
   | _ => .fail .parentUnreachable
 
+/-! ### EnsurePathExistsOnAdd (C14): create the missing parents, then add
+
+`ensureAdd o v c toks` walks the decoded tokens from the container value `c`.  A missing
+parent becomes an array when the *next* token is `-` or a canonical non-negative index
+(padded with nulls up to that index), an object otherwise; a missing array element may
+only be addressed at or beyond the end (the gap is padded with nulls).  Everything else
+the property leaves open is `unspec`: negative or non-canonical indices, `-` before the
+last token, a name addressed to an existing array, a null or scalar on the existing
+prefix, indices above 10000. -/
+
+def ensureMaxIndex : Nat := 10000
+
+/-- the container a missing parent becomes, given the token that follows it -/
+def freshFor (nxt : Bytes) : Res Value :=
+  match classify nxt with
+  | .dash => .ok (.arr [])
+  | .int i => if i < 0 then .unspec else if i.toNat > ensureMaxIndex then .unspec
+              else .ok (.arr (List.replicate i.toNat .null))
+  | .noncanon => .unspec
+  | .name => .ok (.obj [])
+
+def ensureAdd (o : Opts) (v : Value) : Value → List Bytes → Res Value
+  | _, [] => .unspec
+  | c, [t] => (addIn o v c t).bind fun (c', _) => .ok c'
+  | c, t :: t2 :: ts =>
+    match c with
+    | .obj ms =>
+      match Value.lookup t ms with
+      | some child =>
+        if child.isContainer then
+          (ensureAdd o v child (t2 :: ts)).bind fun c' => .ok (.obj (Value.set t c' ms))
+        else .unspec
+      | none =>
+        (freshFor t2).bind fun fresh =>
+          (ensureAdd o v fresh (t2 :: ts)).bind fun inner => .ok (.obj (ms ++ [(t, inner)]))
+    | .arr xs =>
+      match classify t with
+      | .int i =>
+        if i < 0 then .unspec
+        else if i.toNat > ensureMaxIndex then .unspec
+        else
+          match xs[i.toNat]? with
+          | some child =>
+            if child.isContainer then
+              (ensureAdd o v child (t2 :: ts)).bind fun c' => .ok (.arr (setAt i.toNat c' xs))
+            else .unspec
+          | none =>
+            (freshFor t2).bind fun fresh =>
+              (ensureAdd o v fresh (t2 :: ts)).bind fun inner =>
+                .ok (.arr (xs ++ List.replicate (i.toNat - xs.length) .null ++ [inner]))
+      | _ => .unspec
+    | _ => .unspec
+
 /-! ### numbers that differ only in spelling (domain classification of `test`) -/
 
 def stripTrailingZeros (ds : List Nat) : List Nat × Nat :=
@@ -263,6 +317,27 @@ def testEq (a b : Value) : Res Unit :=
   else if numEqv a b then .unspec
   else .fail .testUnequal
 
+/-! ### AllowMissingPathOnRemove (C13): which removes are skipped
+
+A remove is skipped when its target or any ancestor does not exist.  Index *syntax*
+problems at the last token (a name or `-` addressed to an array, a negative index while
+negative indices are off) are outside the property's domain. -/
+def skipsRemove (o : Opts) (doc : Value) (path : List Bytes) : Res Bool :=
+  match atParent o (fun p t =>
+      match p with
+      | .obj ms => .ok (p, (Value.lookup t ms).isNone)
+      | .arr xs =>
+        match classify t with
+        | .int i =>
+          if 0 ≤ i then .ok (p, decide (xs.length ≤ i.toNat))
+          else if !o.neg then .unspec
+          else .ok (p, decide (i < -(xs.length : Int)))
+        | _ => .unspec
+      | _ => .ok (p, true)) doc path with
+  | .ok (_, b) => .ok b
+  | .fail _ => .ok true          -- an ancestor is absent
+  | .unspec => .unspec
+
 /-! ### one operation -/
 
 /-- `size` = spelled size of the value copied by this operation (taken from the
@@ -278,11 +353,20 @@ def applyOp (o : Opts) (size : Nat) (acc : Nat) (doc : Value) (op : Op) : Res (V
     | some v =>
       match path with
       | [] => if v.isContainer then .ok (v, acc) else if v.isNull then .unspec else .fail .rootNotContainer
-      | _ => (atParent o (addIn o v) doc path).bind fun (d, _) => .ok (d, acc)
+      | _ =>
+        if o.ensure then (ensureAdd o v doc path).bind fun d => .ok (d, acc)
+        else (atParent o (addIn o v) doc path).bind fun (d, _) => .ok (d, acc)
   | .remove =>
     match path with
     | [] => .unspec
-    | _ => (atParent o (removeIn o) doc path).bind fun (d, _) => .ok (d, acc)
+    | _ =>
+      if o.allowMissing then
+        match skipsRemove o doc path with
+        | .ok true => .ok (doc, acc)
+        | .ok false => (atParent o (removeIn o) doc path).bind fun (d, _) => .ok (d, acc)
+        | .fail c => .fail c
+        | .unspec => .unspec
+      else (atParent o (removeIn o) doc path).bind fun (d, _) => .ok (d, acc)
   | .replace =>
     match op.value with
     | none => .unspec
